@@ -2,7 +2,7 @@
 import json, os, re
 from vlib import *
 
-CFG = "SPECIFICATION Spec\nINVARIANT Report\nINVARIANT EveryCodeHasItsMessage\nCHECK_DEADLOCK FALSE\n"
+CFG = "SPECIFICATION Spec\nINVARIANT Report\nINVARIANT EveryCodeHasItsMessage\nINVARIANT ReturnedValuesAreCodes\nCHECK_DEADLOCK FALSE\n"
 
 
 def read_codes():
@@ -19,6 +19,50 @@ def read_codes():
     return codes
 
 
+DOC = "#\\#CIF_2.0\ndata_b1\n_a 1\nloop_ _x _y\n1 2\n3 4\nsave_f\n_c [1 {'k':2}]\nsave_\ndata_b2\n_d 'v'\n"
+BAD_DOC = "#\\#CIF_2.0\ndata_b1\n_a 1\n_a 2\nloop_ _x\n_q\ndata_b1\n_z\n"
+
+
+def returned_battery(tier):
+    """Calls whose returned value an application would hand to cif_errlist: traversals and parses whose handlers answer
+    with every navigation directive (or an error code) at every callback position, parses of a defective document under
+    each error policy, and data-management calls that fail."""
+    cmds, what = [], []
+    def add(c, w):
+        cmds.append(c); what.append(w)
+    add({"op": "parse", "cif": "c", "text": DOC, "errors": "accept"}, None)
+    ncb = 24
+    answers = (-1, -2, -3, 5, 11) if tier == "quick" else (-1, -2, -3, 1, 2, 3, 5, 11, 23, 35)
+    for k in range(ncb):
+        for a in answers:
+            add({"op": "walk", "cif": "c", "script": [0] * k + [a]}, "cif_walk, callback %d answers %d" % (k, a))
+            add({"op": "parse", "text": DOC, "handler": 1, "script": [0] * k + [a], "errors": "accept"}, "cif_parse, callback %d answers %d" % (k, a))
+    for omit in (["block_start"], ["item"], ["loop_start", "packet_start"], ["cif_start", "cif_end"]):
+        for a in (-3, -2):
+            add({"op": "walk", "cif": "c", "script": [0, 0, a], "omit": omit}, "cif_walk without %s, third callback answers %d" % ("/".join(omit), a))
+    for pol in ("accept", "reject", "die", "ignore", "null"):
+        add({"op": "parse", "text": BAD_DOC, "errors": pol}, "cif_parse of a defective document, error policy %s" % pol)
+        add({"op": "parse", "cif": "d" + pol, "text": BAD_DOC, "errors": pol}, "cif_parse of a defective document into a CIF, error policy %s" % pol)
+    for e in range(0, 8):
+        add({"op": "parse", "text": BAD_DOC, "errors": "script", "escript": [0] * e + [7], "edefault": 0}, "cif_parse, error callback %d answers 7" % e)
+    add({"op": "create_block", "cif": "c", "code": "b1", "h": "h1"}, "cif_create_block, duplicate code")
+    add({"op": "create_block", "cif": "c", "code": "b 3", "h": "h2"}, "cif_create_block, invalid code")
+    add({"op": "get_block", "cif": "c", "code": "nope", "h": "h3"}, "cif_get_block, no such block")
+    add({"op": "get_block", "cif": "c", "code": "b1", "h": "hb"}, None)
+    add({"op": "create_frame", "cont": "hb", "code": "f", "h": "h4"}, "cif_container_create_frame, duplicate code")
+    add({"op": "get_frame", "cont": "hb", "code": "zz", "h": "h5"}, "cif_container_get_frame, no such frame")
+    add({"op": "get_value", "cont": "hb", "name": "_nope"}, "cif_container_get_value, no such item")
+    add({"op": "get_value", "cont": "hb", "name": "_x"}, "cif_container_get_value, item with several values")
+    add({"op": "set_value", "cont": "hb", "name": "no underscore", "v": {"k": "char", "t": "v"}}, "cif_container_set_value, invalid name")
+    add({"op": "remove_item", "cont": "hb", "name": "_nope"}, "cif_container_remove_item, no such item")
+    add({"op": "create_loop", "cont": "hb", "category": "c1", "names": ["_a"], "h": "l1"}, "cif_container_create_loop, duplicate item")
+    add({"op": "create_loop", "cont": "hb", "category": "c1", "names": [], "h": "l2"}, "cif_container_create_loop, no names")
+    add({"op": "create_loop", "cont": "hb", "category": "", "names": ["_s1"], "h": "l3"}, "cif_container_create_loop, reserved category")
+    add({"op": "get_item_loop", "cont": "hb", "name": "_nope", "h": "l4"}, "cif_container_get_item_loop, no such item")
+    add({"op": "get_category_loop", "cont": "hb", "category": "nope", "h": "l5"}, "cif_container_get_category_loop, no such loop")
+    return cmds, what
+
+
 def c20(tier, replay=None):
     rep = Report("C20", tier, "model_checking")
     binary = build("asan")
@@ -29,23 +73,47 @@ def c20(tier, replay=None):
     if r.crashed or not r.outs or "msgs" not in r.outs[0]:
         raise Infra("cifrun could not dump cif_errlist: " + r.stderr[-500:])
     nerr, msgs = r.outs[0]["nerr"], r.outs[0]["msgs"]
+    cmds, what = returned_battery(tier)
+    rb = run_cifrun(binary, cmds, timeout=900)
+    if rb.crashed or len(rb.outs) != len(cmds):
+        # the call that did not return is itself the observation
+        k = len(rb.outs) if rb.outs is not None else 0
+        rep.violation("returned-value battery: %s" % sanitizer_signature(rb.stderr), "abnormal termination in %s" % (what[min(k, len(what) - 1)] or cmds[min(k, len(cmds) - 1)]["op"]),
+                      {"commands": cmds[:k + 1][-3:], "stderr": rb.stderr[-1500:]})
+        returned = []
+    else:
+        returned = [{"call": w_, "rc": int(o["rc"])} for w_, o in zip(what, rb.outs) if w_ is not None and "rc" in o]
+        if len(returned) < len([w_ for w_ in what if w_]) - 2:
+            raise Infra("returned-value battery: only %d of %d calls reported a result: %s" % (len(returned), len(what), json.dumps(rb.outs[-3:])[:600]))
+    # TLC integers are 32-bit and the table is indexed from 0: a value outside [-2^30, 2^30] is clipped (it is outside the table either way)
+    for r_ in returned:
+        r_["rc"] = max(-(1 << 30), min(1 << 30, r_["rc"]))
     wd = scratch_dir("errlist")
     trace = os.path.join(wd, "trace.ndjson")
     with open(trace, "w") as f:
-        f.write(json.dumps({"codes": codes, "nerr": nerr, "slot": int(r.outs[0].get("slot", 80)), "msgs": [m.lower() for m in msgs]}) + "\n")
+        f.write(json.dumps({"codes": codes, "nerr": nerr, "slot": int(r.outs[0].get("slot", 80)), "msgs": [m.lower() for m in msgs],
+                            "returned": sorted({x["rc"] for x in returned})}) + "\n")
     out, st, wd2 = run_tlc("CifErrlist", CFG, "errlist", workers=1, env={"TRACE": trace}, timeout=300)
     bad, count = None, 0
-    for tag, o in iter_tlc_json(out, ("BAD", "COUNT")):
+    alien = []
+    for tag, o in iter_tlc_json(out, ("BAD", "COUNT", "ALIEN")):
         if tag == "BAD":
             bad = o
+        elif tag == "ALIEN":
+            alien = o
         else:
             count = o["codes"]
     text = open(out, errors="replace").read()
     cleanup(wd); cleanup(wd2)
     if bad is None:
         raise Infra("TLC did not evaluate the trace: " + text[-1500:])
-    if st["ok"] and bad:
+    if st["ok"] and (bad or alien):
         raise Infra("inconsistent TLC outcome")
+    for n in alien:
+        calls = [x["call"] for x in returned if x["rc"] == n]
+        rep.violation("returned %d" % n, "%s returned %d, which is no result code of cif.h (cif_errlist has no entry for it); %d calls of the battery do"
+                      % (calls[0], n, len(calls)), {"value": n, "calls": calls[:10], "commands": [c for c, w_ in zip(cmds, what) if w_ == calls[0]][:1] and
+                                                    [cmds[0]] + [c for c, w_ in zip(cmds, what) if w_ == calls[0]][:1]})
     for c in bad:
         n = c["n"]
         got = msgs[n] if n < nerr else "(outside the table, cif_nerr = %d)" % nerr
@@ -53,6 +121,7 @@ def c20(tier, replay=None):
     rep.samples = [{"code": c["name"], "n": c["n"], "message": msgs[c["n"]] if c["n"] < nerr else None} for c in codes[:6]]
     return rep.finish({"states": max(st["distinct"], 1), "transitions": max(st["generated"], 1), "traces_validated_against_impl": 1,
                        "codes_checked": count, "codes_in_header": len(codes), "nerr": nerr, "exhaustive": True,
+                       "returned_values_checked": len(returned), "distinct_returned_values": len({x["rc"] for x in returned}),
                        "evaluations": len(codes), "distinct_nontrivial": len(codes),
-                       "rule": "every #define CIF_<NAME> <n> of the return-code group of cif.h (read at check time) against the table dumped from the library built from /repo"},
+                       "rule": "every #define CIF_<NAME> <n> of the return-code group of cif.h (read at check time) against the table dumped from the library built from /repo; the values returned by a battery of traversals, parses and failing calls must be among those codes"},
                       ["the keyword alternatives in CifErrlist.tla (Describes) state what each message must say"])
